@@ -3,8 +3,8 @@
 
    Reading guide.  `grid_sys g recheck reload up` is the transition system of Creator.v for a grid / meta
    grid configuration g: `recheck = true` is the protocol with the re-check under the lock (the code),
-   `reload = false` is the code as it is, `reload = true` the code with the repair proposed in
-   proposed_fixes/C08-load-recheck-race.md; `up t` is the image the upstream delivers for tile t.
+   `reload = true` is the code (a tile that is_cached finds although load_tiles missed it is loaded again,
+   repair of finding F22), `reload = false` the protocol before that repair (kept for no_reload_refuted); `up t` is the image the upstream delivers for tile t.
    `init c0 reqs` = initial cache c0 and one requester per element of reqs (any number);
    `run S s sched` = the state after the requesters took steps in the order `sched` (any list of requester
    numbers: every interleaving of cache reads, lock attempts, upstream calls, cache writes and unlocks).
@@ -15,7 +15,7 @@ From MP Require Import Base Creator Creator_proofs.
 
 (* The upstream is asked at most once per meta tile - for any number of requesters, any request lists, any
    initial cache with correct content and any interleaving - and only for meta tiles of requested tiles that
-   were not cached at the start.  Holds for the code as it is and for the repaired code. *)
+   were not cached at the start.  (Holds with and without the reload of F22.) *)
 Theorem one_fetch_per_meta_tile :
   forall g reload up c0 reqs sched,
     valid_gconf g -> valid_reqs g reqs -> content_ok up c0 ->
@@ -26,7 +26,7 @@ Theorem one_fetch_per_meta_tile :
 Proof. exact grid_one_fetch. Qed.
 
 (* Every finished requester hands back, for every tile it asked for, the image the upstream draws for exactly
-   that tile.  Needs the repair (reload = true): see all_responses_correct_refuted. *)
+   that tile - for any number of requesters and any interleaving. *)
 Theorem all_responses_correct :
   forall g up c0 reqs sched p pr,
     valid_gconf g -> valid_reqs g reqs -> content_ok up c0 ->
@@ -34,32 +34,6 @@ Theorem all_responses_correct :
     nth_error (procs s) p = Some pr -> p_pc pr = Done ->
     exists req, nth_error reqs p = Some req /\ response pr = map (fun r => (r, Some (up r))) req.
 Proof. exact grid_responses_correct. Qed.
-
-(* The code as it is (reload = false): requester 0 looks for tile (1,1,1) and misses, requester 1 creates and
-   stores the tile, requester 0 looks again (is_cached: hit) and answers WITHOUT image. *)
-Theorem all_responses_correct_refuted :
-  let s := run (grid_sys single_grid true false up0) (init [] [[t111]; [t111]]) race_schedule in
-  all_done s = true /\ map response (procs s) = [[(t111, None)]; [(t111, Some (up0 t111))]].
-Proof. exact race_unanswered. Qed.
-
-(* What does hold for the code as it is: a response never carries a wrong image (the image of another tile or a
-   stale one) - a tile is answered with its own image or, in the window above, without image ... *)
-Theorem responses_never_wrong :
-  forall g reload up c0 reqs sched p pr r v,
-    valid_gconf g -> valid_reqs g reqs -> content_ok up c0 ->
-    let s := run (grid_sys g true reload up) (init c0 reqs) sched in
-    nth_error (procs s) p = Some pr -> In (r, Some v) (response pr) -> v = up r.
-Proof. exact grid_responses_never_wrong. Qed.
-
-(* ... and every tile a finished requester asked for is in the cache with the right image by then (so the
-   unanswered tile of the window is served by the next request).  Weaker than all_responses_correct: says
-   nothing about the image in the response itself. *)
-Theorem all_responses_correct_partial :
-  forall g reload up c0 reqs sched p pr r,
-    valid_gconf g -> valid_reqs g reqs -> content_ok up c0 ->
-    let s := run (grid_sys g true reload up) (init c0 reqs) sched in
-    nth_error (procs s) p = Some pr -> p_pc pr = Done -> In r (p_req pr) -> lookup (cache s) r = Some (up r).
-Proof. exact grid_unanswered_is_cached. Qed.
 
 (* The cache holds, at every moment, only correct images and only tiles that were there at the start or belong
    to the meta tile of a requested tile that was missing at the start; when all requesters have finished it
@@ -93,7 +67,7 @@ Proof. exact grid_main_same_iff. Qed.
    lock file; requesters of different meta tiles never make each other wait.
    _partial: the commutation of steps of requesters working on different meta tiles (same final state in either
    order) is not proved; that they cannot corrupt each other follows from final_cache_exact /
-   responses_never_wrong, which hold for every interleaving. *)
+   all_responses_correct, which hold for every interleaving. *)
 Theorem different_meta_tiles_independent_partial :
   forall g reload up c0 reqs sched p k,
     valid_gconf g -> valid_reqs g reqs -> content_ok up c0 ->
@@ -126,3 +100,11 @@ Theorem no_recheck_refuted :
   let s := run (grid_sys single_grid false false up0) (init [] [[t111]; [t111]]) norecheck_schedule in
   all_done s = true /\ fetched s = [t111; t111].
 Proof. exact no_recheck_two_fetches. Qed.
+
+(* Why the reload of finding F22 is needed: the protocol before the repair (reload = false) answers a tile WITHOUT
+   image under this schedule - requester 0 looks for tile (1,1,1) and misses, requester 1 creates and stores the
+   tile, requester 0 looks again (is_cached: hit) and neither loads nor creates it. *)
+Theorem no_reload_refuted :
+  let s := run (grid_sys single_grid true false up0) (init [] [[t111]; [t111]]) race_schedule in
+  all_done s = true /\ map response (procs s) = [[(t111, None)]; [(t111, Some (up0 t111))]].
+Proof. exact race_unanswered. Qed.
